@@ -137,7 +137,9 @@ def part_single(task):
           V('scaling-not-monotone', key, 'values %s scale to %s' % (pts, fs), opts)
       # decode arbitrary arrays
       if spec.type == core.NumpyArraySpecType.CONTINUOUS:
-        arrs = [np.array([[c]], dtype=dt) for c in CONT]
+        big = 0.9 * float(np.finfo(dt).max)
+        arrs = [np.array([[c]], dtype=dt) for c in CONT + [big, -big, np.inf, -np.inf]]
+        arrs += [np.array([[c]], dtype=np.float64) for c in (1e300, -1e300)]     # an optimiser working in float64 feeding a float32 converter
       elif spec.type == core.NumpyArraySpecType.ONEHOT_EMBEDDING:
         D = spec.num_dimensions
         arrs = [np.zeros((1, D), dt), np.ones((1, D), dt), -np.ones((1, D), dt), np.full((1, D), 0.5, dt)]
@@ -222,9 +224,13 @@ def part_space(task):
         if scale and not ((X >= -1e-6) & (X <= 1 + 1e-6)).all():
           V('scaled-outside-unit-interval', name, 'features %s' % X[(X < -1e-6) | (X > 1 + 1e-6)][:3].tolist(), keys)
         D = X.shape[1]
-        for fill in (-1e30, -1.0, 0.0, 0.5, 1.0, 1.0 + 1e-9, 2.0, 1e30):
+        big = 0.9 * float(np.finfo(dt).max)
+        for fill in (-1e30, -1.0, 0.0, 0.5, 1.0, 1.0 + 1e-9, 2.0, 1e30, big, -big, np.inf, -np.inf):
           n += 1
           check_in_space(name, c.to_parameters(np.full((1, D), fill, dtype=dt)), 'array filled with %r' % fill)
+        for fill in (1e300, -1e300):
+          n += 1
+          check_in_space(name, c.to_parameters(np.full((1, D), fill, dtype=np.float64)), 'float64 array filled with %r' % fill)
         alt = np.array([[(-1) ** i * (i + 1) * 0.7 for i in range(D)]], dtype=dt)
         check_in_space(name, c.to_parameters(alt), 'alternating array')
       except Exception as e:  # pylint: disable=broad-except
